@@ -1423,7 +1423,10 @@ def post_checks(mesh, exact):
     st_c, cell = attempt(lambda: [F(float(x)) for x in mesh.cell])
     if st_c != "ok" or len(cell) != len(cq) or any(abs(x - y) > y / 10 ** 9 for x, y in zip(cell, cq)):
         out.append("cell-is-not-edges-over-n")
-    quiet = exact or max(abs(x) for x in lo + hi) * F(1, 2 ** 49) <= ALIGN_TOL / 4
+    # (scale regime: the corners must also resolve the cell - a picometre mesh moved to coordinates of
+    #  order 10 has corners spaced by ulp(10), far coarser than 1e-9 of its cell)
+    noise = max(abs(x) for x in lo + hi) * F(1, 2 ** 49)
+    quiet = exact or (noise <= ALIGN_TOL / 4 and noise <= min(cq) / 10 ** 9)
     if not quiet:
         return out
     for name, smin, smax, _, _ in mo["subs"]:
